@@ -2,23 +2,54 @@ package hackpadfs
 
 import "strings"
 
+// stripErrPathPrefix translates the paths of an error returned by a delegated call on a MountFS's
+// inner file system (which saw 'mountSubPath') back into the caller's namespace (which passed 'name').
+// Two shapes occur: a Sub view, where the inner path is "base/name", and a mount, where the caller's
+// name is "point/inner".
 func stripErrPathPrefix(err error, name, mountSubPath string) error {
 	if err == nil {
 		return err
 	}
-	prefix := strings.TrimSuffix(mountSubPath, name)
+	translate := func(p string) string { return p }
+	switch {
+	case name == mountSubPath:
+	case name == "." || strings.HasSuffix(mountSubPath, "/"+name):
+		// Sub view: strip the view's base directory
+		base := mountSubPath
+		if name != "." {
+			base = strings.TrimSuffix(mountSubPath, "/"+name)
+		}
+		translate = func(p string) string {
+			if p == base {
+				return "."
+			}
+			return strings.TrimPrefix(p, base+"/")
+		}
+	case mountSubPath == "." || strings.HasSuffix(name, "/"+mountSubPath):
+		// mount: put the mount point back in front
+		point := name
+		if mountSubPath != "." {
+			point = strings.TrimSuffix(name, "/"+mountSubPath)
+		}
+		translate = func(p string) string {
+			if p == "." {
+				return point
+			}
+			return point + "/" + p
+		}
+	}
 	switch err := err.(type) {
 	case *PathError:
 		return &PathError{
 			Op:   err.Op,
-			Path: strings.TrimPrefix(err.Path, prefix),
+			Path: translate(err.Path),
 			Err:  err.Err,
 		}
 	case *LinkError:
 		return &LinkError{
 			Op:  err.Op,
-			Old: strings.TrimPrefix(err.Old, prefix),
-			New: strings.TrimPrefix(err.New, prefix),
+			Old: translate(err.Old),
+			New: translate(err.New),
 			Err: err.Err,
 		}
 	default:
